@@ -1,6 +1,7 @@
 mod elems;
 mod entry_ops;
 mod exec;
+mod extras;
 mod gen;
 mod gen_ext;
 mod par_runner;
@@ -537,6 +538,12 @@ fn main() {
             }
             writeln!(ops, "end").unwrap();
             writeln!(real, "end").unwrap();
+        }
+        Some("extras") => {
+            // oracle-only scenarios (differently seeded hashers, zero-sized maps / sets)
+            let seed: u64 = args[2].parse().unwrap();
+            let count: usize = args[3].parse().unwrap();
+            extras::run(seed, count, &args[4]);
         }
         Some("width") => println!("{}", hashbrown::verif::GROUP_WIDTH),
         _ => {
